@@ -268,3 +268,15 @@ def run(ctx):
     n = ctx.scale(40, 1500)
     ctx.pmap(_sample_worker, [(n, ctx.sub_seed(sh), byte_level) for sh in range(16)])
     ctx.pmap(_real_worker, [(d, True) for d in REAL_DOCS])
+    # supplementary: coverage-guided byte-level fuzzing (atheris) with the same three-valued oracle inside the target
+    from pbt.core import fuzzrun
+
+    res = fuzzrun.campaign("C08", ctx.scale(60000, 1500000), ctx.sub_seed("fuzz"))
+    ctx.note("atheris_campaign", {k: v for k, v in res.items() if k != "finding"})
+    if "finding" in res:
+        case = {"op": "fuzz", "text": res["finding"]["text"]}
+        for k, d in check_case(case):  # re-checked outside the fuzzer before anything is reported
+            ctx.fail(k, case, d)
+    if res.get("counts"):
+        ctx.count(res["counts"].get("MUST_REJECT", 0))
+        ctx.label("fuzz:MUST_REJECT", res["counts"].get("MUST_REJECT", 0))
